@@ -78,6 +78,15 @@ func zzH_C19() {
 		r.Unmarshal(f)
 		return r
 	}
+	cancelEarly := vChoose("cancel-before-requests-are-written", 2) == 1
+	cancel := func() {
+		ctx.err = errZZCanceled
+		close(ctx.done)
+		cancelled = true
+	}
+	if cancelEarly {
+		cancel() // the context ends while its call may still be queued behind another write
+	}
 	// a correct server can only answer requests it has received
 	var mine, other pbRequest
 	for i := 0; i < 2; i++ {
@@ -88,10 +97,8 @@ func zzH_C19() {
 			mine = r
 		}
 	}
-	cancel := func() {
-		ctx.err = errZZCanceled
-		close(ctx.done)
-		cancelled = true
+	if cancelEarly && (script == 1 || script == 2 || script >= 3) {
+		script = 0 // already cancelled: the remaining scripts only differ in when they cancel
 	}
 	switch script {
 	case 0: // answer both, never cancel
